@@ -24,7 +24,7 @@ package transaction
 // Representation invariant of a transaction: the flags say which side of the isolation lock the transaction
 // owns, and an active transaction owns the side that matches its mode.  lockstate: 0 free, 1 shared, 2 exclusive
 // (state of the lock as owned by this transaction).
-//@ predicate TxInv(tx *TransactionImpl) = tx.rwLock != nil && tx.buffer != nil && !(tx.hasReadLock && tx.hasWriteLock) && (tx.active ==> (tx.mode == ReadOnly ==> tx.hasReadLock) && (tx.mode != ReadOnly ==> tx.hasWriteLock)) && (tx.hasReadLock ==> lockstate(tx.rwLock) == 1 && tx.mode == ReadOnly) && (tx.hasWriteLock ==> lockstate(tx.rwLock) == 2 && tx.mode != ReadOnly) && (!tx.hasReadLock && !tx.hasWriteLock ==> lockstate(tx.rwLock) == 0)
+//@ predicate TxInv(tx *TransactionImpl) = tx.rwLock != nil && tx.buffer != nil && tx.buffer.operations != nil && lockstate(tx.buffer.mu) == 0 && !(tx.hasReadLock && tx.hasWriteLock) && (tx.active ==> (tx.mode == ReadOnly ==> tx.hasReadLock) && (tx.mode != ReadOnly ==> tx.hasWriteLock)) && (tx.hasReadLock ==> lockstate(tx.rwLock) == 1 && tx.mode == ReadOnly) && (tx.hasWriteLock ==> lockstate(tx.rwLock) == 2 && tx.mode != ReadOnly) && (!tx.hasReadLock && !tx.hasWriteLock ==> lockstate(tx.rwLock) == 0)
 
 //@ predicate TxBegun(tx *TransactionImpl, m *Manager, ro bool) = tx != nil && TxInv(tx) && tx.active && tx.storage == m.storage && (ro ==> tx.mode == ReadOnly && lockstate(m.txLock) == 1) && (!ro ==> tx.mode == ReadWrite && lockstate(m.txLock) == 2) && len(tx.buffer.operations) == 0
 
@@ -149,4 +149,4 @@ package transaction
 //@   ensures[C03] forall k bstr :: k != bstr(key) ==> b.operations[k] == old(b.operations[k])
 //@ func (*Buffer).Clear
 //@   requires b != nil && lockstate(b.mu) == 0
-//@   ensures[C03] len(b.operations) == 0
+//@   ensures[C03] len(b.operations) == 0 && b.operations != nil
